@@ -196,6 +196,12 @@ func genC13(tier string, rng *rand.Rand, shard, nshards int, emit emitter) {
 		}
 		fs := genFieldList(rng, false, false)
 		emit(fmt.Sprintf("extract %d %d %d %d %s", 4+rng.Intn(4), rng.Intn(2), -1, rng.Intn(100000), fieldsToken(fs)))
+		if i%8 == 0 {
+			// coil and discrete-input requests made by the builder (they carry their request: the quantity is known), replies
+			// whose unused bits are set: extraction reads the response, it does not tidy it up
+			cs := genFieldList(rng, true, false)
+			emit(fmt.Sprintf("extract %d %d %d %d %s", rng.Intn(4), rng.Intn(2), -1, 2*rng.Intn(50000)+1, fieldsToken(cs)))
+		}
 	}
 	count := 6000
 	if tier == "thorough" {
